@@ -295,208 +295,6 @@ def check_routing(prop, tier, seed, replay):
             else:
                 with open(progs, "w") as f:
                     f.write(json.dumps(rp["prog"]) + "\n")
-                settings = [rp.get("sendbuf", 0)]
-            maxp = 0
-        else:
-            gcfg = ("SPECIFICATION Spec\nCONSTANTS\n  Family = \"%s\"\n  Len3 = %s\nINVARIANT Emit\nCHECK_DEADLOCK FALSE\n"
-                    % (prop, "TRUE" if len3 else "FALSE"))
-            gout, ggen, gdist, _ = tlc("FifoGen", gcfg, work, env={"GEN_OUT": progs}, workers=8, timeout=1500)
-            if not tlc_ok(gout):
-                raise Infra("FifoGen failed:\n" + gout[-3000:])
-            settings = [0, 2]
-        total_exec = total_calls = total_events = nontriv = tstates = 0
-        samples, reported, allbad = [], [], 0
-        exhaustive = True
-        # design level: the ordering design itself (callers, send queue, sender, network, server loop with the
-        # hand-over mutex) explored exhaustively in Channel.tla
-        dstates = dtrans = 0
-        design = []
-        if not replay:
-            import check_life
-            for name in (["two-two-b0-noclose", "sw-nsw-b1"] if tier == "quick" else
-                         ["two-two-b0", "two-two-b1", "sw-nsw-b1", "three-b0", "stream-two-b0"]):
-                out, gen, dist, rc = tlc("ChannelMC", check_life.channel_cfg(name, []), work, workers=16, timeout=3000)
-                if not tlc_ok(out):
-                    raise Infra("design-level check of Channel.tla (%s) failed:\n%s" % (name, out[-3000:]))
-                dstates += dist
-                dtrans += gen
-                design.append({"config": name, "states": dist, "transitions": gen})
-                log("design level: Channel.tla %s: %d distinct states; FifoPerConn, NoDoubleStart, OneUnreleased hold" %
-                    (name, dist))
-        for sb in settings:
-            trace = os.path.join(work, "trace-%d.ndjson" % sb)
-            stats = os.path.join(work, "stats-%d.json" % sb)
-            p = drive_prog(progs, trace, stats, seed + sb, maxp, sb, "fifo", window)
-            if p.returncode != 0:
-                # the driver died: a runtime fatal error of the library under test (e.g. unlock of
-                # unlocked mutex in a broken Release) cannot be recovered in-process
-                if "fatal error" in p.stdout or "panic" in p.stdout:
-                    path = next_replay_path(prop)
-                    json.dump({"property": prop, "process_died": p.stdout[-3000:], "sendbuf": sb, "seed": seed},
-                              open(path, "w"), indent=1)
-                    log("VIOLATION property=%s replay=%s" % (prop, path))
-                    return 1
-                raise Infra("driver failed:\n" + p.stdout[-3000:])
-            st = json.load(open(stats))
-            log("sendbuf=%d: %s" % (sb, p.stdout.strip()))
-            bad, secs, ts = validate(trace, "FifoTrace", FIFO_TCFG, shards, work)
-            tstates += ts
-            total_exec += st["executed"]
-            total_calls += st["calls"]
-            total_events += st["events"]
-            nontriv += st["distinct_nontrivial"]
-            exhaustive = exhaustive and st["exhaustive"]
-            samples = samples or st["samples"]
-            allbad += len({t for t, _, _ in bad})
-            for t, ev, rec in sorted(bad, key=lambda b: b[0])[:3]:
-                sec = section(secs, t)
-                confirmed = True
-                if ev in ("Quiescent", "ProgEnd") and not replay:
-                    # timing-dependent: reproduce alone before reporting
-                    one = os.path.join(work, "one.ndjson")
-                    with open(one, "w") as f:
-                        f.write(json.dumps(json.loads(sec[0])["prog"]) + "\n")
-                    hits = 0
-                    for _ in range(2):
-                        t1 = os.path.join(work, "one-trace.ndjson")
-                        p1 = drive_prog(one, t1, os.path.join(work, "one-stats.json"), seed, 0, sb, "fifo", window)
-                        if p1.returncode != 0:
-                            hits += 1
-                            continue
-                        b1, _, _ = validate(t1, "FifoTrace", FIFO_TCFG, 1, work)
-                        hits += 1 if b1 else 0
-                    confirmed = hits > 0
-                if not confirmed:
-                    # seen once, not reproduced in two re-runs of the same program: not a verdict
-                    log("UNCONFIRMED (not a verdict): timing-dependent rejection of program %d (%s) did not reproduce" % (t, ev))
-                    allbad -= 1
-                    continue
-                if len(reported) < 3:
-                    path = next_replay_path(prop)
-                    json.dump({"property": prop, "prog": json.loads(sec[0])["prog"], "sendbuf": sb, "rejected_event": ev,
-                               "rejected": rec, "trace": [json.loads(x) for x in sec]}, open(path, "w"), indent=1)
-                    reported.append(path)
-        # C03: FIFO across a stream break with a send buffer (scripted scenario, validated by the same monitor)
-        nscen = 0
-        if prop == "C03" and (not replay or json.load(open(replay)).get("life")):
-            import check_life
-            lt = os.path.join(work, "life.ndjson")
-            only = json.load(open(replay))["scenario"] if replay else None
-            log(check_life.run_life("C03", lt, os.path.join(work, "life.json"), only=only, reps=1 if tier == "quick" else 5))
-            if '"infeasible":"' in open(lt).read().replace('"infeasible":""', ""):
-                raise Infra("infeasible C03 scenario")
-            lbad, lsecs, ts = validate(lt, "FifoTrace", FIFO_TCFG, 1, work, header='{"ev":"Scen"')
-            tstates += ts
-            nscen = len(lsecs)
-            allbad += len({t for t, _, _ in lbad})
-            for t, ev, rec in lbad[:3]:
-                hdr = json.loads(section(lsecs, t)[0])
-                path = next_replay_path(prop)
-                json.dump({"property": prop, "life": True, "scenario": "%s:%s" % (hdr["name"], hdr["kind"]),
-                           "rejected_event": ev, "rejected": rec}, open(path, "w"), indent=1)
-                reported.append(path)
-        if replay:
-            if allbad:
-                log("VIOLATION property=%s replay=%s" % (prop, replay))
-                return 1
-            log("replay accepted")
-            return 0
-        cov = {"states": max(dstates, 1), "transitions": max(dtrans, 1),
-               "traces_validated_against_impl": total_exec - allbad,
-               "evaluations": total_exec, "distinct_nontrivial": nontriv,
-               "rule": "programs = the %s family of FifoGen.tla (ordered pairs%s of call variants over all 16 Puppet methods "
-                       "x send-waiting x handler behaviours), each executed with send buffer 0 and 2; non-trivial = at "
-                       "least one call has a slow, holding, failing or multiply-releasing handler" %
-                       (prop, " and selected triples" if len3 else ""),
-               "samples": samples, "exhaustive": exhaustive, "programs_generated": gdist, "calls": total_calls,
-               "trace_events": total_events, "trace_states": tstates, "send_buffers": settings,
-               "stream_break_scenarios": nscen,
-               "design_level": design}
-        write_evidence(prop, tier, seed, "model_checking", cov, time.time() - t0, allbad,
-                       ["Before(c1,c2) is taken from the driver's StubRet/StubCall events (happens-before of one goroutine)",
-                        "a premature handler start is rejected whenever it is recorded; the observation window only "
-                        "affects detection power",
-                        "ProgEnd/Quiescent rejections are timing-dependent (3 s) and are re-run before being reported"])
-        if reported:
-            for pth in reported:
-                log("VIOLATION property=%s replay=%s" % (prop, pth))
-            return 1
-        log("OK %s %s: %d programs (%d calls) validated in %.1fs" % (prop, tier, total_exec, total_calls, time.time() - t0))
-        return 0
-    finally:
-        shutil.rmtree(work, ignore_errors=True)
-
-
-def m3_run(prop, work, seed, params, faults, name="m3"):
-    """One free workload (optionally with server crashes/restarts), validated by RoutingTrace.
-    Returns (calls, rejected sections, trace states, replay records)."""
-    mt = os.path.join(work, name + ".ndjson")
-    st = os.path.join(work, name + ".json")
-    cmd = [os.path.join(BUILD, "drive"), "m3", "-out", mt, "-stats", st, "-seed", str(seed), "-runs", str(params[0]),
-           "-goroutines", str(params[1]), "-calls", str(params[2]), "-cancel", "any", "-alphabet", "routing"]
-    if faults:
-        cmd.append("-faults")
-    p = run(cmd, timeout=3000, check=False)
-    if p.returncode != 0:
-        m = re.search(r"(panic: .*?\n\ngoroutine \d+ \[running\]:\n(github\.com/relab/gorums\.\S+)[^\n]*\n[^\n]*)", p.stdout, re.S)
-        if m and "Verif" not in m.group(2):
-            # the library itself panicked in one of its own goroutines: that is behaviour of the real code
-            return 0, [(0, "ProcessDied", {})], 0, [{"property": prop, "scenario": "m3", "faults": faults, "seed": seed,
-                                                     "params": list(params), "rejected_event": "ProcessDied",
-                                                     "rejected": {"what": m.group(1)[-2000:]}}]
-        raise Infra("m3 driver failed:\n" + p.stdout[-3000:])
-    log(("faults " if faults else "") + p.stdout.strip())
-    calls = json.load(open(st))["calls"]
-    b3, _, ts = validate(mt, "RoutingTrace", FIFO_TCFG, 4, work)
-    recs = [{"property": prop, "scenario": "m3", "faults": faults, "seed": seed, "params": list(params),
-             "rejected_event": ev, "rejected": rec} for t, ev, rec in b3]
-    return calls, b3, ts, recs
-
-
-def m3_replay(prop, rp, work, default_params):
-    params = tuple(rp.get("params") or default_params)
-    for i in range(3):
-        _, b3, _, _ = m3_run(prop, work, rp["seed"], params, bool(rp.get("faults")), name="re%d" % i)
-        if b3:
-            return b3
-    return []
-
-
-ROUTING_TIERS = {
-    # (3-call programs, shards, m3 (runs, goroutines, calls), design configs)
-    "quick": (False, 4, (8, 6, 40), ["two-two-b0-noclose", "three-two-nocrash"]),
-    "thorough": (True, 16, (60, 8, 80), ["two-two-b0", "stream-two-b0", "stream-stream-b1", "three-b0", "three-two-nocrash"]),
-}
-ROUTING_M3F = {"quick": (6, 6, 40), "thorough": (60, 8, 60)}
-ROUTING_OWN = {"C05": "AtMostOneResponse ConfirmOnlyOneWay (Channel.tla); Deliver/Recv/Drop preconditions, QF stamps (Routing.tla)",
-               "C18": "NoResidue (Channel.tla, Routing.tla): router tables empty and no per-call goroutine at quiescence"}
-
-
-def check_routing(prop, tier, seed, replay):
-    import check_life
-    t0 = time.time()
-    work = scratch(prop)
-    try:
-        build()
-        len3, shards, m3, designs = ROUTING_TIERS[tier]
-        m3f = ROUTING_M3F[tier]
-        progs = os.path.join(work, "progs.ndjson")
-        if replay:
-            rp = json.load(open(replay))
-            if rp.get("life"):
-                t1 = os.path.join(work, "re.ndjson")
-                check_life.run_life("C18", t1, os.path.join(work, "re.json"), only=rp["scenario"])
-                bad, _, _ = check_life.validate_life(t1, work)
-            elif rp.get("scenario") == "m3":
-                mt = os.path.join(work, "m3.ndjson")
-                p = run([os.path.join(BUILD, "drive"), "m3", "-out", mt, "-seed", str(rp["seed"]), "-runs", str(m3[0]),
-                         "-goroutines", str(m3[1]), "-calls", str(m3[2]), "-cancel", "any", "-alphabet", "routing"],
-                        timeout=3000, check=False)
-                b3, _, _ = validate(mt, "RoutingTrace", FIFO_TCFG, 2, work)
-                bad = b3
-            else:
-                with open(progs, "w") as f:
-                    f.write(json.dumps(rp["prog"]) + "\n")
                 trace = os.path.join(work, "trace.ndjson")
                 drive_prog(progs, trace, os.path.join(work, "st.json"), seed, 0, rp.get("sendbuf", 0), "routing", 1)
                 bad, _, _ = validate(trace, "RoutingTrace", FIFO_TCFG, 1, work)
